@@ -202,7 +202,7 @@ func (p *Parser) readSymbols(seq []rune, pos, end int, tok token, allowStrings b
 	start = findNonSpace(seq, pos, end)
 	var ok bool
 
-	if c := grab(seq, start, end); allowStrings || c == '"' || c == '\'' {
+	if c := grab(seq, start, end); allowStrings && (c == '"' || c == '\'') {
 		var epos int
 		if epos, ok = findStringEnd(seq, start, end); ok {
 			pos = epos
